@@ -164,6 +164,22 @@ func c17JudgeRT(c *mon.Ctx, in *c17RT) {
 			c.Violationf("C17:roundtrip:mismatch", "decode(encode(%q,%d,%d,%x)) = (%q,%d,%d,%x)", in.Prefix, in.Version, in.Network, []byte(in.Data), got.Prefix, got.Version, got.Network, got.Data)
 		}
 	}
+	// what a decode returned belongs to the caller: it must survive later decodes
+	if got != nil && err == nil && len(got.Data) > 0 {
+		keep, snap := got.Data, append([]byte{}, got.Data...)
+		other := make([]byte, len(in.Data))
+		for i := range other {
+			other[i] = ^in.Data[i]
+		}
+		c.Try("bscript.DecodeBIP276", func() {
+			_, _ = bscript.DecodeBIP276(bscript.EncodeBIP276(bscript.BIP276{Prefix: in.Prefix, Version: in.Version, Network: in.Network, Data: other}))
+			_, _ = bscript.DecodeBIP276(refaddr.EncodeBIP276(refaddr.BIP276{Prefix: in.Prefix, Version: in.Version, Network: in.Network, Data: other}))
+		})
+		c.Count("rt:retained-result-checks")
+		if !bytes.Equal(keep, snap) {
+			c.Violationf("C17:decoded-data-changed-by-a-later-decode", "the Data returned by DecodeBIP276 (%x…) changed to %x… after another text was decoded", snap[:min(len(snap), 12)], keep[:min(len(keep), 12)])
+		}
+	}
 	// the decoder must read the specification text
 	if c.Try("bscript.DecodeBIP276", func() { got, err = bscript.DecodeBIP276(ref) }) {
 		if err != nil {
